@@ -105,6 +105,10 @@ struct Session {
     // never copied; read after every call; must show what a fresh look-up of the same descriptor shows
     struct KDim { std::string k; std::shared_ptr<nix::SetDimension> se; std::shared_ptr<nix::SampledDimension> sa; std::shared_ptr<nix::RangeDimension> ra; std::shared_ptr<nix::DataFrameDimension> fr; };
     std::map<long, std::vector<KDim>> keptDims;
+    // ballast: K extra entities per owning container (created by the harness next to the model's entities, never touched
+    // afterwards, invisible to the model): containers with a few dozen members behave differently inside the storage layer
+    // (compact vs dense link storage, index caches, iteration restarts) than the 2-4 members the bounded model reaches
+    long K = 0; std::set<std::string> ballast;
     json carried = json::array();            // issues observed immediately before a close (what was observable before closing)
     Dict dict;
     std::string path;
@@ -115,11 +119,13 @@ struct Session {
         for (auto &p : idOf) j["ids"][std::to_string(p.first)] = p.second;
         j["created"] = json::object();
         for (auto &p : createdAt) j["created"][std::to_string(p.first)] = p.second;
+        j["ballast"] = json::array(); for (auto &b : ballast) j["ballast"].push_back(b);
         return j;
     }
     void fromJson(const json &j) {
         for (auto it = j["ids"].begin(); it != j["ids"].end(); ++it) { long e = std::stol(it.key()); idOf[e] = it.value(); eidOfId[it.value()] = e; }
         for (auto it = j["created"].begin(); it != j["created"].end(); ++it) createdAt[std::stol(it.key())] = it.value();
+        if (j.contains("ballast")) for (auto &b : j["ballast"]) ballast.insert(b.get<std::string>());
     }
 };
 
@@ -266,7 +272,7 @@ struct Walk {
             const T &e = all[i];
             if (!e) { issue(where + ": enumeration yields an empty handle at " + std::to_string(i)); out.push_back(-50); continue; }
             std::string id = e.id();
-            out.push_back(eidOf(id));
+            if (!s.ballast.count(id)) out.push_back(eidOf(id));       // ballast takes part in every look-up check below, but not in the projected state
             if (!seenIds.insert(id).second) issue(where + ": id listed twice");
             try {
                 T bi = getIdx(i);
@@ -337,7 +343,7 @@ struct Walk {
             [&](const std::string &k) { return src.hasSource(k); }, [&](const nix::Source &y) { return src.hasSource(y); });
         r["one"]["metadata"] = metadataOf(src, where);
         ents.push_back(r);
-        for (auto &c : ch) if (c) walkSource(c, where + "/" + c.name());
+        for (auto &c : ch) if (c && !s.ballast.count(c.id())) walkSource(c, where + "/" + c.name());
     }
 
     void walkSection(const nix::Section &sec, const std::string &where) {
@@ -355,7 +361,7 @@ struct Walk {
         try { nix::Section l = sec.link(); r["one"]["link"] = l ? eidOf(l.id()) : NONE; }
         catch (const std::exception &ex) { issue(where + ": link() threw: " + ex.what()); r["one"]["link"] = -77; }
         ents.push_back(r);
-        for (auto &p : ps) if (p) {
+        for (auto &p : ps) if (p && !s.ballast.count(p.id())) {
             json pr = base(mk(p), eidOf(p.id()));
             pr["name"] = s.dict.abs(p.name());
             boost::optional<std::string> d = p.definition();
@@ -363,7 +369,7 @@ struct Walk {
             pr["type"] = "t1";     // properties have no type; the model's constant
             ents.push_back(pr);
         }
-        for (auto &c : ch) if (c) walkSection(c, where + "/" + c.name());
+        for (auto &c : ch) if (c && !s.ballast.count(c.id())) walkSection(c, where + "/" + c.name());
     }
 
     template <typename T> void walkTagCommon(json &r, const T &t, const std::string &where) {
@@ -416,7 +422,7 @@ struct Walk {
         r["one"]["metadata"] = metadataOf(b, where);
         ents.push_back(r);
 
-        for (auto &a : as) if (a) {
+        for (auto &a : as) if (a && !s.ballast.count(a.id())) {
             std::string w = where + "/" + a.name();
             json ar = base(mk(a), eidOf(a.id()));
             named(ar, a);
@@ -451,7 +457,7 @@ struct Walk {
             r2["one"]["metadata"] = metadataOf(f, w);
             ents.push_back(r2);
         }
-        for (auto &t : ts) if (t) {
+        for (auto &t : ts) if (t && !s.ballast.count(t.id())) {
             std::string w = where + "/" + t.name();
             json r2 = base(mk(t), eidOf(t.id()));
             named(r2, t);
@@ -469,7 +475,7 @@ struct Walk {
             catch (const std::exception &ex) { issue(w + ": extents() threw: " + ex.what()); r2["one"]["extents"] = -77; }
             ents.push_back(r2);
         }
-        for (auto &g : gs) if (g) {
+        for (auto &g : gs) if (g && !s.ballast.count(g.id())) {
             std::string w = where + "/" + g.name();
             json r2 = base(mk(g), eidOf(g.id()));
             named(r2, g);
@@ -489,7 +495,7 @@ struct Walk {
                 [&](const std::string &k) { return g.hasMultiTag(k); }, [&](const nix::MultiTag &y) { return g.hasMultiTag(y); });
             ents.push_back(r2);
         }
-        for (auto &x : ss) if (x) walkSource(x, where + "/" + x.name());
+        for (auto &x : ss) if (x && !s.ballast.count(x.id())) walkSource(x, where + "/" + x.name());
     }
 
     void walkFile() {
@@ -503,8 +509,8 @@ struct Walk {
             [&](size_t i) { return s.f.getSection(i); }, [&](const std::string &k) { return s.f.getSection(k); },
             [&](const std::string &k) { return s.f.hasSection(k); }, [&](const nix::Section &y) { return s.f.hasSection(y); });
         ents.push_back(r);
-        for (auto &b : bs) if (b) walkBlock(b, "/" + b.name());
-        for (auto &x : ss) if (x) walkSection(x, "/" + x.name());
+        for (auto &b : bs) if (b && !s.ballast.count(b.id())) walkBlock(b, "/" + b.name());
+        for (auto &x : ss) if (x && !s.ballast.count(x.id())) walkSection(x, "/" + x.name());
     }
 };
 
@@ -614,6 +620,25 @@ json observe(Session &s) {
 // ------------------------------------------------------------------ executor
 nix::LinkType ltOf(long v) { return v == 0 ? nix::LinkType::Tagged : v == 1 ? nix::LinkType::Untagged : nix::LinkType::Indexed; }
 
+// ballast next to the model's entities (see Session::K)
+void addBallast(Session &s, Ent &made) {
+    if (s.K <= 0) return;
+    auto nm = [](const char *p, long k) { return std::string("zz-") + p + "-" + std::to_string(k); };
+    if (made.kind == "file") {
+        for (long k = 0; k < s.K; k++) { s.ballast.insert(s.f.createBlock(nm("b", k), "ballast").id()); s.ballast.insert(s.f.createSection(nm("s", k), "ballast").id()); }
+    } else if (made.kind == "block") {
+        for (long k = 0; k < s.K; k++) {
+            s.ballast.insert(made.block.createDataArray(nm("a", k), "ballast", nix::DataType::Double, nix::NDSize({1})).id());
+            s.ballast.insert(made.block.createSource(nm("src", k), "ballast").id());
+            if (k % 2 == 0) { s.ballast.insert(made.block.createTag(nm("t", k), "ballast", {1.0}).id()); s.ballast.insert(made.block.createGroup(nm("g", k), "ballast").id()); }
+        }
+    } else if (made.kind == "section") {
+        for (long k = 0; k < s.K; k++) { s.ballast.insert(made.section.createProperty(nm("p", k), nix::Variant(1.0)).id()); s.ballast.insert(made.section.createSection(nm("s", k), "ballast").id()); }
+    } else if (made.kind == "source") {
+        for (long k = 0; k < s.K; k++) s.ballast.insert(made.source.createSource(nm("src", k), "ballast").id());
+    }
+}
+
 void doCreate(Ctx &c, Session &s, const json &g, long neweid, const std::string &nameOverride, const std::string &typeOverride, bool useOverride) {
     long p = g["p"]; std::string slot = g["slot"]; long x = g["t"]; long v = g["v"];
     std::string name = useOverride ? nameOverride : s.dict.name(g["n"]);
@@ -638,7 +663,7 @@ void doCreate(Ctx &c, Session &s, const json &g, long neweid, const std::string 
         Ent &pe = handleOf(s, p);
         made = pe.kind == "tag" ? mk(pe.tag.createFeature(d, ltOf(v == 1 ? 0 : 2))) : mk(pe.mtag.createFeature(d, ltOf(v == 1 ? 0 : 2)));
     } else throw std::runtime_error("harness: unknown slot " + slot);
-    if (neweid > 0) bindNew(s, neweid, made);
+    if (neweid > 0) { bindNew(s, neweid, made); addBallast(s, made); }
 }
 
 bool doDelete(Session &s, const json &g) {
@@ -937,7 +962,7 @@ template <typename T> typename nix::util::Filter<T>::type filterOf(Session &s, c
 }
 template <typename T> json eidsOf(Session &s, const std::vector<T> &v) {
     json o = json::array();
-    for (auto &e : v) { auto it = s.eidOfId.find(e.id()); o.push_back(it == s.eidOfId.end() ? -100L : it->second); }
+    for (auto &e : v) { if (s.ballast.count(e.id())) continue; auto it = s.eidOfId.find(e.id()); o.push_back(it == s.eidOfId.end() ? -100L : it->second); }
     return o;
 }
 // runs every query of the emitted QueryAll step; returns the first disagreement (or null)
@@ -1022,9 +1047,17 @@ json handleInner(Ctx &c, const json &rec) {
     unlink(s.path.c_str());
     std::vector<json> all(rec["pre"].begin(), rec["pre"].end());
     all.push_back(rec["step"]);
+    {   // ballast per line: fixed by the orchestrator, or (-1) rotating with the line's content so that a stored line replays alike
+        long kb = c.opts.value("ballast", 0L);
+        if (kb < 0) { std::string key = rec["pre"].dump() + rec["step"].dump(); unsigned long h = 1469598103934665603UL; for (unsigned char ch : key) { h ^= ch; h *= 1099511628211UL; }
+                      static const long KS[] = {0, 0, 0, 0, 0, 9}; s.K = KS[h % 6]; }
+        else s.K = kb;
+    }
+    Ent fileEnt; fileEnt.kind = "file";
     // Init: an open read-write session on a new, empty file
     s.f = nix::File::open(s.path, nix::FileMode::Overwrite);
     s.open = true; s.mode = "rw";
+    addBallast(s, fileEnt);
     json result;
     size_t i = 0;
     while (i < all.size()) {
@@ -1043,7 +1076,7 @@ json handleInner(Ctx &c, const json &rec) {
             if (pid == 0) {
                 int rc = 0;
                 try {
-                    if (i == 0) { s.f = nix::File::open(s.path, nix::FileMode::Overwrite); s.open = true; s.mode = "rw"; }
+                    if (i == 0) { s.f = nix::File::open(s.path, nix::FileMode::Overwrite); s.open = true; s.mode = "rw"; s.ballast.clear(); addBallast(s, fileEnt); }
                     for (size_t k = i; k < ci; k++) {
                         std::string r = doStep(c, s, all[k], (long) k);
                         if (r != all[k]["res"].get<std::string>()) { rc = 3; break; }
